@@ -162,7 +162,7 @@ func Install(vm *goja.Runtime) {
 			sl.mem[i] = 0xA5
 		}
 		for i := 0; i < n; i++ {
-			sl.mem[32+i] = byte(10*(i+1) + 1)
+			sl.mem[32+i] = byte((37*(i+1) + 100) % 256)
 		}
 		o := vm.ToValue(vm.NewArrayBuffer(sl.mem[32 : 32+n : 32+n])).(*goja.Object)
 		slabs[o] = sl
